@@ -106,7 +106,9 @@ func (p *pooler) build(t reflect.Type, fuel int) []Gen {
 			add(-2.25, 1e20)
 		}
 	case reflect.Complex64, reflect.Complex128:
-		add(complex(0, 0), complex(1, 0), complex(0, 1))
+		nz := math.Copysign(0, -1)
+		// signed zeros in either part: == (and derived Equal) ignore the sign
+		add(complex(0, 0), complex(0, nz), complex(nz, 0), complex(1, 0), complex(1, nz), complex(0, 1))
 	case reflect.String:
 		if p.sc.Text {
 			// the awkward ones first: nested pools only keep the head of a pool
